@@ -17,6 +17,7 @@ import (
 	liqv1types "github.com/comdex-official/comdex/x/liquidation/types"
 	liqtypes "github.com/comdex-official/comdex/x/liquidationsV2/types"
 	markettypes "github.com/comdex-official/comdex/x/market/types"
+	tokenminttypes "github.com/comdex-official/comdex/x/tokenmint/types"
 	vaulttypes "github.com/comdex-official/comdex/x/vault/types"
 
 	"vh/sim"
@@ -65,6 +66,9 @@ type Config struct {
 	DurationV1 uint64
 	BufferV1   Frac
 	CuspV1     Frac
+	// emergency shutdown (x/esm): cool-off period in seconds (0 = 20) and deposit target in governance tokens (0 = 50)
+	CoolOff   uint64
+	EsmTarget int64
 }
 
 // V1DutchMappingID is the auction mapping id under which the fixture registers V1 Dutch auctions (AuctionParams.DutchId).
@@ -92,7 +96,7 @@ func must(err error) {
 
 func (w *World) addAsset(name, denom string, dec int64, priced bool) uint64 {
 	must(w.App.AssetKeeper.AddAssetRecords(w.Ctx, assettypes.Asset{Name: name, Denom: denom, Decimals: sdk.NewInt(dec),
-		IsOnChain: true, IsOraclePriceRequired: priced, IsCdpMintable: true}))
+		IsOnChain: true, IsOraclePriceRequired: priced, IsCdpMintable: denom != "uhb"})) // the governance token of an app must not be CDP-mintable
 	for _, a := range w.App.AssetKeeper.GetAssets(w.Ctx) {
 		if a.Denom == denom {
 			w.Assets[denom] = a.Id
@@ -148,12 +152,18 @@ func Setup(cfg Config) *World {
 	if cfg.CuspV1.Den == 0 {
 		cfg.CuspV1 = Frac{7, 10}
 	}
+	if cfg.CoolOff == 0 {
+		cfg.CoolOff = 20
+	}
+	if cfg.EsmTarget == 0 {
+		cfg.EsmTarget = 50
+	}
 	var funds []sim.Fund
 	for _, u := range cfg.Users {
 		funds = append(funds, sim.Fund{Name: u})
 	}
 	w := &World{Env: sim.New(funds), Cfg: cfg, Assets: map[string]uint64{}, Decs: map[string]int64{}, Denoms: AllDenoms}
-	must(w.App.AssetKeeper.AddAppRecords(w.Ctx, assettypes.AppData{Name: "harbor", ShortName: "hbr", MinGovDeposit: sdk.NewInt(0), GovTimeInSeconds: 0}))
+	must(w.App.AssetKeeper.AddAppRecords(w.Ctx, assettypes.AppData{Name: "harbor", ShortName: "hbr", MinGovDeposit: sdk.NewInt(1), GovTimeInSeconds: 1}))
 	apps, _ := w.App.AssetKeeper.GetApps(w.Ctx)
 	w.App1 = apps[0].Id
 	// the band validation flag is what keeps market.BeginBlocker from switching every price off each block
@@ -162,7 +172,7 @@ func Setup(cfg Config) *World {
 	ua := w.addAsset("ATOM", "uat", cfg.DecA, true)
 	us := w.addAsset("CMST", "ust", cfg.DecS, true)
 	uu := w.addAsset("USDC", "uus", cfg.DecU, true)
-	w.addAsset("HARBOR", "uhb", 1, false)
+	hb := w.addAsset("HARBOR", "uhb", 1, false)
 	w.SetPrice(uc, 2, true)
 	w.SetPrice(ua, 3, true)
 	w.SetPrice(us, 1, true)
@@ -179,6 +189,8 @@ func Setup(cfg Config) *World {
 	b.CollD, b.CollA = "uat", ua
 	b.MinCr = Frac{2, 1}
 	b.Ceiling = 150 * cfg.DecS
+	b.OutOracle = false // fixed debt price (AssetOutPrice = 1): the ratio values the debt at OutPrice / debt decimals, V2 auctions mark the debt as cmst
+	b.OutPrice = 1
 	w.Prods = append(w.Prods, w.addProduct("ATOMB", p2, b))
 	c := base
 	c.CollD, c.CollA = "uus", uu
@@ -211,6 +223,19 @@ func Setup(cfg Config) *World {
 	if cfg.Interest {
 		must(w.App.Rewardskeeper.WhitelistAppIDVault(w.Ctx, w.App1))
 	}
+	// emergency shutdown: governance token of the app (genesis-minted through x/tokenmint's message, spread over the users), trigger
+	// parameters with fixed redemption rates for the debt asset and the stable-mint collateral (same scale as the oracle values of the fixture)
+	gov := sim.Addr("gov")
+	must(w.App.AssetKeeper.AddAssetInAppRecords(w.Ctx, assettypes.AppData{Id: w.App1, GenesisToken: []assettypes.MintGenesisToken{
+		{AssetId: hb, GenesisSupply: sdk.NewInt(1000000), IsGovToken: true, Recipient: gov.String()}}}))
+	if r := w.Deliver(&tokenminttypes.MsgMintNewTokensRequest{From: gov.String(), AppId: w.App1, AssetId: hb}); !r.OK {
+		panic("tokenmint: " + r.Err)
+	}
+	for _, u := range cfg.Users {
+		must(w.App.BankKeeper.SendCoins(w.Ctx, gov, sim.Addr(u), sdk.NewCoins(sdk.NewInt64Coin("uhb", 200))))
+	}
+	must(w.App.EsmKeeper.AddESMTriggerParamsForApp(w.Ctx, &bindings.MsgAddESMTriggerParams{AppID: w.App1, TargetValue: sdk.NewInt64Coin("uhb", cfg.EsmTarget),
+		CoolOffPeriod: cfg.CoolOff, AssetID: []uint64{us, uu}, Rates: []uint64{1, 1}}))
 	for _, u := range cfg.Users {
 		coins := sdk.NewCoins(sdk.NewInt64Coin("ucm", cfg.FundColl), sdk.NewInt64Coin("uat", cfg.FundColl), sdk.NewInt64Coin("uus", cfg.FundColl))
 		if cfg.FundDebt > 0 {
@@ -391,6 +416,41 @@ func (w *World) Project() map[string]interface{} {
 	ks, _ := app.EsmKeeper.GetKillSwitchData(ctx, w.App1)
 	es, efound := app.EsmKeeper.GetESMStatus(ctx, w.App1)
 	st["ctl"] = map[string]interface{}{"breaker": ks.BreakerEnable, "esm": efound && es.Status}
+	// emergency shutdown books: status flags, cool-off end, price snapshot, redemption data (debt registered / collateral held, shares)
+	dep, _ := app.EsmKeeper.GetCurrentDepositStats(ctx, w.App1)
+	depAmt := int64(0)
+	if !dep.Balance.Amount.IsNil() {
+		depAmt = i64(dep.Balance.Amount)
+	}
+	rel := func(t time.Time) int64 {
+		if t.IsZero() || t.Unix() < sim.GenesisTime.Unix() {
+			return 0
+		}
+		return t.Unix() - sim.GenesisTime.Unix()
+	}
+	esm := map[string]interface{}{"found": efound, "status": efound && es.Status, "start": rel(es.StartTime), "end": rel(es.EndTime), "snap": es.SnapshotStatus,
+		"vaultRed": es.VaultRedemptionStatus, "stableRed": es.StableVaultRedemptionStatus, "collTx": es.CollectorTransaction, "shareCalc": es.ShareCalculation,
+		"deposit": depAmt, "target": w.Cfg.EsmTarget}
+	cool, cfound := app.EsmKeeper.GetDataAfterCoolOff(ctx, w.App1)
+	esm["cool"] = map[string]interface{}{"found": cfound, "coll": decL(cool.CollateralTotalAmount), "debt": decL(cool.DebtTotalAmount)}
+	ea := []interface{}{}
+	for _, x := range app.EsmKeeper.GetAllAssetToAmount(ctx, w.App1) {
+		dn := ""
+		for d, id := range w.Assets {
+			if id == x.AssetID {
+				dn = d
+			}
+		}
+		ea = append(ea, map[string]interface{}{"asset": x.AssetID, "denom": dn, "amt": i64(x.Amount), "coll": x.IsCollateral, "share": decL(x.Share), "worth": decL(x.DebtTokenWorth)})
+	}
+	esm["assets"] = ea
+	sn := []interface{}{}
+	for _, d := range []string{"ucm", "uat", "ust", "uus"} {
+		pr, f := app.EsmKeeper.GetSnapshotOfPrices(ctx, w.App1, w.Assets[d])
+		sn = append(sn, map[string]interface{}{"denom": d, "price": int64(pr), "found": f})
+	}
+	esm["snaps"] = sn
+	st["esm"] = esm
 	off, _ := app.NewliqKeeper.GetLiquidationOffsetHolder(ctx, liqtypes.VaultLiquidationsOffsetPrefix, 0)
 	st["offset"] = off.CurrentOffset
 	st["t"] = ctx.BlockTime().Unix() - sim.GenesisTime.Unix()
@@ -427,7 +487,8 @@ func (w *World) ConfigJSON() map[string]interface{} {
 	}
 	return map[string]interface{}{"prods": ps, "decs": w.Decs, "assets": w.Assets, "batch": w.Cfg.Batch, "duration": w.Cfg.Duration,
 		"users": w.Cfg.Users, "app": w.App1, "premium": Frac{6, 5}, "discount": Frac{7, 10}, "keeperIncentive": Frac{1, 10}, "interest": w.Cfg.Interest, "bonus": w.Cfg.Bonus, "extPenalty": Frac{1, 10},
-		"v1": map[string]interface{}{"batch": w.Cfg.BatchV1, "duration": w.Cfg.DurationV1, "buffer": w.Cfg.BufferV1, "cusp": w.Cfg.CuspV1, "dutchMap": V1DutchMappingID}}
+		"esm": map[string]interface{}{"coolOff": w.Cfg.CoolOff, "target": w.Cfg.EsmTarget, "rates": map[string]int64{"ust": 1, "uus": 1}},
+		"v1":  map[string]interface{}{"batch": w.Cfg.BatchV1, "duration": w.Cfg.DurationV1, "buffer": w.Cfg.BufferV1, "cusp": w.Cfg.CuspV1, "dutchMap": V1DutchMappingID}}
 }
 
 var _ = time.Second
